@@ -35,6 +35,48 @@ Definition pm_parse (c : sx) : sx :=
   | _ => sx_bad
   end.
 
+(* "parse.st": the parser on an ARBITRARY pre-state (bindings, flags, other stacks) and with EXTRA names
+   registered through InstructionSet::add after load().
+   case (profile libm text state (name ...))  ->  the whole state after parsing
+   "parse.st.check": EXEC is the independent spec_parse over (registered ++ extra) names, and every other
+   field of the state is what it was. *)
+Definition pm_parse_st (c : sx) : sx :=
+  match c with
+  | SL [pr; tab; text; st; extra] =>
+      match un_profile pr, un_libm tab, un_zlist text, un_state st, un_list un_zlist extra with
+      | Some p, Some tab, Some text, Some s, Some extra =>
+          let FO := flocq_ops tab in
+          sx_res sx_state (parse_program p (reg_names ++ extra) s text)
+      | _, _, _, _, _ => sx_bad
+      end
+  | _ => sx_bad
+  end.
+
+Definition pm_parse_st_check (c : sx) : sx :=
+  match c with
+  | SL [SL [pr; tab; text; st; extra]; obs] =>
+      match un_profile pr, un_libm tab, un_zlist text, un_state st, un_list un_zlist extra with
+      | Some p, Some tab, Some text, Some s, Some extra =>
+          let FO := flocq_ops tab in
+          match obs with
+          | SL [SZ 0; st'] =>
+              match un_state st' with
+              | Some s' =>
+                  let names := (reg_names ++ extra)%list in
+                  let toks := split_ws text in
+                  if balanced names toks
+                  then sx_bool (sx_eqb (sx_list sx_item (st_exec s')) (sx_list sx_item (spec_parse_tokens names (st_exec s) toks))
+                                && sx_eqb (sx_state (set_exec s' [])) (sx_state (set_exec s [])))
+                  else sx_bool (sx_eqb (sx_state (set_exec s' [])) (sx_state (set_exec s [])))
+              | None => SZ 0
+              end
+          | _ => SZ 0
+          end
+      | _, _, _, _, _ => sx_bad
+      end
+  | _ => sx_bad
+  end.
+
 (* the code of the pinned tree, for the defect witnesses *)
 Definition pm_parse_pinned (c : sx) : sx :=
   match c with
